@@ -9,6 +9,7 @@
 -/
 import HugrVerif.Proofs.StoreInv
 import HugrVerif.Proofs.StoreHier
+import HugrVerif.Proofs.StoreWalk
 
 namespace HugrVerif.Props.C04
 open HugrVerif HugrVerif.Store HugrVerif.Py
@@ -257,6 +258,71 @@ theorem delete_node_children (s s' : Store Ω μ) (hs : SInv s) (n : Nat) (d0 : 
     ∀ j d, j ≠ n → getNode s j = .ok d → ∃ d', getNode s' j = .ok d' ∧ d'.parent = d.parent ∧
       childIdxs d' = (if d0.parent = some j then (childIdxs d).erase n else childIdxs d) :=
   (deleteNode_children s s' hs.links n d0 h0 h).1
+
+/-! ### the hierarchy is a tree; `_hierarchy_order` enumerates it -/
+
+/-- Node arguments are nodes of this HUGR: the `parent` handed to `add_node` / `insert_hugr` is live. -/
+def ParentOK (s : Store Ω μ) : Op Ω μ → Prop
+  | .addNode _ (some p) _ _ => liveN s p
+  | .insertHugr _ (some p) => liveN s p
+  | _ => True
+
+/-- `Reach`, with every `parent` argument a live node (what every caller holding `Node`s obtained
+    from this HUGR does). -/
+inductive ReachT (rootOp : Ω) (m : μ) : Store Ω μ → Prop where
+  | init : ReachT rootOp m (init rootOp m)
+  | step {s s' : Store Ω μ} (o : Op Ω μ) : ReachT rootOp m s → o.WF → LeafOK s o → ParentOK s o →
+      step s o = .ok s' → ReachT rootOp m s'
+
+theorem reachT_reach (rootOp : Ω) (m : μ) (s : Store Ω μ) (h : ReachT rootOp m s) : Reach rootOp m s := by
+  induction h with
+  | init => exact Reach.init
+  | step o _ hw hl _ he ih => exact Reach.step o ih hw hl he
+
+theorem step_acyc (s s' : Store Ω μ) (hs : SInv s) (hh : HierInv s) (hr : RootInv s) (ha : Acyc s)
+    (o : Op Ω μ) (hp : ParentOK s o) (h : step s o = .ok s') : Acyc s' := by
+  cases o with
+  | addNode op p k m =>
+    simp only [step] at h
+    cases hadd : addNode s op p k m with
+    | error e => simp [hadd, Except.map] at h
+    | ok r =>
+      simp [hadd, Except.map] at h; subst h
+      refine acyc_addNodeRaw s r.1 ha hh hs.free op _ k m r.2 hadd ?_
+      cases p with
+      | none => exact hr.live
+      | some p => exact hp
+  | addLink a b => exact acyc_addLink s s' ha a b h
+  | addOrderLink a b => exact acyc_addOrderLink s s' ha a b h
+  | deleteLink a b => exact acyc_deleteLink s s' ha a b h
+  | deleteNode n => exact acyc_deleteNode s s' ha hs n h
+  | insertHugr b p =>
+    simp only [step] at h
+    cases hi : insertHugr s b p with
+    | error e => simp [hi, Except.map] at h
+    | ok r =>
+      simp [hi, Except.map] at h; subst h
+      refine acyc_insertHugr s r.1 b hh hr hs.free ha p ?_ r.2 hi
+      intro q hq; subst hq; exact hp
+
+/-- **In every state reachable with live `parent` arguments the hierarchy is a tree**: besides
+    `reach_inv`, parent pointers are acyclic. -/
+theorem reachT_inv (rootOp : Ω) (m : μ) (s : Store Ω μ) (h : ReachT rootOp m s) :
+    SInv s ∧ HierInv s ∧ RootInv s ∧ Acyc s := by
+  induction h with
+  | init => exact ⟨sinv_init rootOp m, hier_init rootOp m, root_init rootOp m, acyc_init rootOp m⟩
+  | step o _ hw hl hp he ih =>
+    exact ⟨step_inv _ _ ih.1 o hw he, step_hier _ _ ih.1 ih.2.1 o hl he, step_root _ _ ih.1 ih.2.2.1 o hl he,
+      step_acyc _ _ ih.1 ih.2.1 ih.2.2.1 ih.2.2.2 o hp he⟩
+
+/-- **`_hierarchy_order()` is total and exact on every such state**: it returns normally; the list
+    has no duplicates and contains exactly the live nodes; every node is listed after its parent and
+    after the siblings that precede it in its parent's `children` (`Closed`). -/
+theorem hierarchy_order_exact (rootOp : Ω) (m : μ) (s : Store Ω μ) (h : ReachT rootOp m s) :
+    ∃ order, hierLoop s (s.nodes.length + 1) [s.root] [] [] = .ok order ∧
+      hierarchyOrder s = .ok order ∧ order.Nodup ∧ Closed s order ∧ (∀ c, c ∈ order ↔ liveN s c) := by
+  obtain ⟨_, hh, hr, ha⟩ := reachT_inv rootOp m s h
+  exact hierarchyOrder_tree hh hr ha
 
 /-- Non-vacuity: a concrete history with fan-out, an order link, a deletion in the middle of a
     multiply connected port, a node deletion and index reuse runs without raising. -/
